@@ -770,6 +770,8 @@ func runC05(c *ctx) {
 		c.c05Replay(dir, model)
 		return
 	}
+	// two-party handler: genuine later-round messages delivered early, non-draining driver (c05_twoparty.go)
+	c.c05TwoPartyEarly()
 	jobs := c.c05Plan(dir)
 	results := make([]*c05JobResult, len(jobs))
 	doneCh := make([]chan struct{}, len(jobs))
